@@ -184,3 +184,54 @@ def g_run(case):
 
 def g_case(case, res):
     return 'c30_eqb (%s) %s' % (g_run(case), g_result(res))
+
+
+# ---------------------------------------------------------------- histories on ONE BoundStatement (bind / read routing_key)
+def run_history(case):
+    """case: metadata as for run_impl + 'explicit': None | [bytes] + 'ops': [['bind', input] | ['read']]
+    -> {'idx': [...], 'obs': [['bind', None|errkind, wire values] | ['read', rk, wire values]]}"""
+    from cassandra.query import BoundStatement
+    ps = make_prepared(case)
+    ex = case.get('explicit')
+    bs = BoundStatement(ps, routing_key=None if ex is None else bytes(ex))
+    obs = []
+    for op in case['ops']:
+        if op[0] == 'bind':
+            inp = op[1]
+            vals = [pyval(v) for v in inp[1]] if inp[0] == 'list' else dict(('c%d' % k, pyval(v)) for k, v in inp[1])
+            try:
+                bs.bind(vals)
+                e = None
+            except Exception as x:
+                e = classify(x)
+            obs.append(['bind', e, wire(bs.values)])
+        else:
+            try:
+                rk = bs.routing_key
+                r = ('none',) if rk is None else ('bytes', list(bytes(rk)))
+            except Exception as x:
+                r = ('err', type(x).__name__)
+            obs.append(['read', r, wire(bs.values)])
+    return {'idx': list(ps.routing_key_indexes or []), 'obs': obs}
+
+
+def g_rk(rk):
+    return 'RkNone' if rk[0] == 'none' else ('RkErr' if rk[0] == 'err' else 'RkBytes ' + zlist(rk[1]))
+
+
+def g_hist(case, model='c30_hist'):
+    tpk = 'None' if case['table_pk'] is None else '(Some %s)' % zlist(case['table_pk'])
+    ex = 'None' if case.get('explicit') is None else '(Some %s)' % zlist(case['explicit'])
+    ops = '[' + '; '.join(('OBind %s' % g_input(op[1])) if op[0] == 'bind' else 'ORead' for op in case['ops']) + ']'
+    return '%s %s %s %s %s %s %s %s' % (model, zlist(case['names']), g_types(case['types']), natlist(case['server_pk']), tpk,
+                                        zl(case['pv']), ex, ops)
+
+
+def g_hist_case(case, res):
+    obs = []
+    for o in res['obs']:
+        if o[0] == 'bind':
+            obs.append('ObsBind %s %s' % ('None' if o[1] is None else '(Some %s)' % o[1], g_wire(o[2])))
+        else:
+            obs.append('ObsRead (%s) %s' % (g_rk(o[1]), g_wire(o[2])))
+    return 'obs_eqb (%s) [%s]' % (g_hist(case), '; '.join(obs))
